@@ -870,6 +870,34 @@ def P34(m, R):
                        % (short(t), ae, not pol), construct=cons)
             else:
                 R.ok(f, call, 'a completed group is emitted, while dropping erroneous items, only under `%s`' % short(t), construct=cons)
+            # parsable is False for RESET by design: a lone code must not depend on it (ESC[0m is a directive the reader has to see)
+            rejects_reset = any(isinstance(x, ast.Compare) and any(isinstance(y, ast.Attribute) and y.attr == 'RESET' for y in ast.walk(x)) for x in pz.walk())
+
+            def tv(e):
+                # three-valued: dropping mode, `.parsable` False, the group holds one code
+                if isinstance(e, ast.BoolOp):
+                    vs = [tv(v) for v in e.values]
+                    if isinstance(e.op, ast.Or):
+                        return True if True in vs else (None if None in vs else False)
+                    return False if False in vs else (None if None in vs else True)
+                if isinstance(e, ast.UnaryOp) and isinstance(e.op, ast.Not):
+                    v = tv(e.operand)
+                    return None if v is None else (not v)
+                if isinstance(e, ast.Name) and e.id == ae:
+                    return not pol
+                if isinstance(e, ast.Attribute) and e.attr == 'parsable':
+                    return False
+                if isinstance(e, ast.Compare) and len(e.ops) == 1 and call_name(e.left) == 'len' and isinstance(e.comparators[0], ast.Constant):
+                    k, op = e.comparators[0].value, e.ops[0]
+                    if isinstance(k, int) and not isinstance(k, bool):
+                        return {ast.Eq: 1 == k, ast.NotEq: 1 != k, ast.Lt: 1 < k, ast.LtE: 1 <= k, ast.Gt: 1 > k, ast.GtE: 1 >= k}.get(type(op))
+                return None
+            if rejects_reset and tv(t) is False:
+                R.viol(f, call, 'a lone code is emitted only when `.parsable` holds (`%s`), and parsable is False for RESET: parse_graphic_sequence("0") returns nothing while '
+                                'dropping erroneous items -- set_ansi_str never sees ESC[0m and the styles before it run on' % short(t), construct='lone code emission')
+            elif rejects_reset:
+                R.ok(f, call, 'a lone code does not depend on `.parsable` (which is False for RESET) under `%s`%s' % (short(t), '' if tv(t) else ' -- guard not decidable, no claim'),
+                     construct='lone code emission')
         else:
             R.viol(f, call, 'a completed colour group is emitted without the range test that AnsiSetting.parsable applies (L%d: %s): parse_graphic_sequence("38;5;300") returns '
                             'the setting 38;5;300 although it promises parsable settings when erroneous items are dropped -- set_ansi_str keeps it, and after simplify() '
